@@ -746,7 +746,8 @@ class C09(Monitor):
                     if sum(1 for x in sub if x.startswith("dup:")) > 1:
                         continue
                     alts.append((m, sub))
-        alts += [("set_size_neg", ()), ("ctor_neg", ()), ("locklock", ()), ("unlockunlock", ())]
+        alts += [("set_size_neg", (-1,)), ("set_size_neg", (-2,)), ("set_size_neg", (-3,)),
+                 ("ctor_neg", ()), ("locklock", ()), ("unlockunlock", ())]
         return alts
 
     def probe_reject(self, p, *a):
@@ -785,12 +786,12 @@ class C09(Monitor):
         if m == "set_size_neg":
             before = self.obs(p)
             try:
-                pool.pool_size = -1
-                self.v("pool_size = -1 accepted")
+                pool.pool_size = sub[0]
+                self.v("negative pool_size accepted", sub[0])
             except ValueError:
                 pass
             except Exception as e:
-                self.v("pool_size = -1 raised something else", type(e).__name__)
+                self.v("negative pool_size raised something else", sub[0], type(e).__name__)
             if self.obs(p) != before:
                 self.v("rejected pool_size assignment changed the pool", before, self.obs(p))
             return
@@ -880,6 +881,27 @@ class C10(Monitor):
     def __init__(self, world):
         super().__init__(world)
         self.live_before = None
+        self.pre_ids = {}
+
+    def __canon__(self):
+        return sorted((t, sorted(v)) for t, v in self.pre_ids.items())
+
+    def terminal(self):
+        # SimpleTaskPool workers share one function, so which start() a task belongs to is only known through the
+        # group; what is known independently is how many tasks each start() asked for
+        w = self.w
+        if w.terminated:
+            return
+        for t, r in w.reqs.items():
+            if r.kind != "start" or t in w.group_cancelled or w.cfg_size[r.p] == 0 or r.p in w.closed_pools or r.p in w.closing:
+                continue
+            try:
+                ids = w.pools[r.p].get_group_ids(r.group)
+            except X.InvalidGroupName:
+                continue  # reported at idle
+            want = r.num - len(skipped_of(w, t))  # a call site that raises creates no task
+            if len(ids) != want:
+                self.v("group of a start(num) request does not hold num task ids once the request is complete", t, sorted(ids), want)
 
     def live_groups(self, p):
         w = self.w
@@ -897,6 +919,7 @@ class C10(Monitor):
                 self.v("duplicate group name accepted", op)
             return
         g = out[1]
+        self.pre_ids[pos[0]] = set(w.all_created(opts.get("p", 0)))
         if opts.get("name") is not None:
             if g != opts["name"]:
                 self.v("explicit group name not returned", op, g)
@@ -940,6 +963,10 @@ class C10(Monitor):
                 mine = {k[1] for k in started_of(w, t)} | never_started_cancelled(w, t)
                 if ids != mine:
                     self.v("get_group_ids != ids of the tasks created for the group", t, sorted(ids), sorted(mine))
+                if len(ids) > w.reqs[t].num and w.reqs[t].kind in ("apply", "start"):
+                    self.v("group holds more task ids than the request asked for", t, sorted(ids), w.reqs[t].num)
+                if ids & self.pre_ids.get(t, set()):
+                    self.v("group holds the id of a task that existed before the request was made", t, sorted(ids), sorted(self.pre_ids[t]))
                 sets[t] = ids
             tags = sorted(sets)
             for a in range(len(tags)):
@@ -993,6 +1020,9 @@ class C11(Monitor):
             self.v("task id used twice", w.dup_keys[0])
         if w.cb_mismatch:
             self.v("id passed to a callback != id in the task's name", w.cb_mismatch[0])
+        twice = sorted(k for k, n in w.cb_begun.items() if n > 1)
+        if twice:
+            self.v("the same task id was passed to a callback more than once (ids handed to callbacks are not unique)", twice[0])
         for p in pools_of(w):
             ids = w.all_created(p)
             new = sorted(t for t in ids if t >= self.next[p])
@@ -1144,6 +1174,21 @@ class C13(Monitor):
                 continue
             if w.pools[p].num_running < w.live[p]:
                 self.v("running task no longer counted", p, w.pools[p].num_running, w.live[p], kind)
+            if kind == "boundary" and w.flushes_begun[p]:
+                # a running task stays reachable through its group (cancel_group / cancel_all go through the group registry)
+                for t, r in w.reqs.items():
+                    if r.p != p or t in w.group_cancelled or r.group is None or p in w.closing:
+                        continue
+                    lv = live_of(w, t)
+                    if not lv:
+                        continue
+                    try:
+                        ids = w.pools[p].get_group_ids(r.group)
+                    except X.InvalidGroupName:
+                        self.v("flush() forgot the group of tasks that are still running", t, r.group, lv)
+                        continue
+                    if not {k[1] for k in lv} <= ids:
+                        self.v("running task is no longer a member of its group after flush()", t, sorted(ids), lv)
 
     def terminal(self):
         w = self.w
